@@ -33,7 +33,7 @@ def draw_config(rng, mode="bounded", allow_restart=False, faults=True):
         c["jobids"] = JOBIDS[: rng.randint(1, 6)]
     if rng.random() < 0.25:
         # legal but unusual explicit ids: 0 and the empty string (falsy)
-        c["jobids"] = c["jobids"] + rng.choice([[0], [""], [0, ""], [2], [3, 2], [0, 1]])
+        c["jobids"] = c["jobids"] + rng.choice([[0], [""], [0, ""], [2], [3, 2], [0, 1], [3, 4], [2, 3, 4]])
     c["p_noid"] = rng.choice([0.0, 0.2, 0.5])
     c["prios"] = rng.choice([[0], [0, 1], [0, 1, 2], [2, 1, 0, 0]])
     # always explicit: the defaults (120 s, 3600 s) are implementation constants, not properties
@@ -501,16 +501,54 @@ class QsRun:
         }
 
 
+class HangDetected(BaseException):
+    pass
+
+
+class _HangGuard:
+    """A server that spins without yielding cannot be caught by step caps: one simulated
+    history normally takes milliseconds; 30 s of real time inside one is a hang."""
+
+    def __init__(self, seconds=30.0):
+        self.seconds = seconds
+
+    def __enter__(self):
+        import signal
+
+        def on_alarm(signum, frame):
+            raise HangDetected()
+
+        self._old = signal.signal(signal.SIGALRM, on_alarm)
+        signal.setitimer(signal.ITIMER_REAL, self.seconds)
+        return self
+
+    def __exit__(self, *a):
+        import signal
+        signal.setitimer(signal.ITIMER_REAL, 0)
+        signal.signal(signal.SIGALRM, self._old)
+        return False
+
+
+def _hang_violation(r):
+    v = Violation("X-hang", "the queue server kept the CPU for 30 s of real time without yielding (busy loop) "
+                  "while processing the last step")
+    v.step_index = len(r.steps)
+    return v
+
+
 def run_generated(data_dir, seed_rng, config, run_cls=QsRun, **kw):
     r = run_cls(data_dir, rng=seed_rng, config=config, **kw)
     v = None
     try:
         try:
-            r.generate()
-            r.epilogue()
+            with _HangGuard():
+                r.generate()
+                r.epilogue()
         except Violation as e:
             e.step_index = len(r.steps)
             v = e
+        except HangDetected:
+            v = _hang_violation(r)
         return r.result(v)
     finally:
         r.close()
@@ -521,12 +559,15 @@ def run_script(data_dir, script, choices, run_cls=QsRun, epilogue=True, **kw):
     v = None
     try:
         try:
-            r.replay()
-            if epilogue:
-                r.epilogue()
+            with _HangGuard(8.0):
+                r.replay()
+                if epilogue:
+                    r.epilogue()
         except Violation as e:
             e.step_index = len(r.steps)
             v = e
+        except HangDetected:
+            v = _hang_violation(r)
         return r.result(v)
     finally:
         r.close()
